@@ -236,3 +236,45 @@ def local_variables_obligations(prop="C13"):
         r.detail = "local_variables aliases the list that now also holds the inherited components"
         r.replay = c13.search()
     return [r]
+
+
+def add_nested_nodes(prop="C13"):
+    """FortranGraph._add_nested_nodes(hop_nodes, nesting): the next hop is drawn (add_nodes with nesting + 1) exactly when there is something to draw and the hop just drawn
+    is still below `max_nesting` (= graph_maxdepth); otherwise the graph is marked truncated at this hop and nothing more is added.  The recursive call is recorded in a ghost list."""
+    c = Contract("ford.graphs", "FortranGraph._add_nested_nodes", prop)
+    c.fields = dict(GFIELDS)
+    c.fields["max_nesting"] = "int"
+    c.param("self", TRef("FortranGraph"))
+
+    class TSet(T):
+        def fresh(self, eng, path, name):
+            i = fresh(name, z3.IntSort())
+            path.assume(z3.And(i > 0, i < path.heap.alloc0))
+            return SSet(i)
+    c.param("hop_nodes", TSet())
+    c.param("nesting", TInt())
+    c.param("ghost_next", TList("int"))            # ghost: the `nesting` arguments of the add_nodes calls made
+    gl = lambda v: v.heap.list_get(v.val("ghost_next"))
+    c.requires("ghost_starts_empty", lambda v: z3.Length(gl(v)) == 0)
+
+    def add_nodes(eng, path, e, args, recv):
+        kw = {k.arg: eng.ev(path, k.value) for k in e.keywords}
+        n = kw.get("nesting", args[1] if len(args) > 1 else None)
+        if n is None:
+            raise EngineError("add_nodes called without a nesting level")
+        g = path.env["ghost_next"]
+        path.heap.list_set(g, z3.Concat(path.heap.list_get(g), z3.Unit(n.t)))
+        return SNone()
+    c.methods["add_nodes"] = add_nodes
+    c.assumed.append("self.add_nodes(...) (the recursion into the next hop) is recorded, not executed: its own effect on `added` is the subject of add_to_graph's contract")
+    nodes = lambda v: v.heap.set_get(v.val("hop_nodes"))
+    mx = lambda v: sel(H(v, "max_nesting"), v.self)
+
+    def post(v0, res, v1):
+        more = z3.And(CARD(nodes(v0)) > 0, v0.nesting < mx(v0))
+        return z3.And(z3.Implies(more, z3.And(z3.Length(gl(v1)) == 1, gl(v1)[0] == v0.nesting + 1, sel(H(v1, "truncated"), v0.self) == sel(H(v0, "truncated"), v0.self))),
+                      z3.Implies(z3.Not(more), z3.Length(gl(v1)) == 0),
+                      z3.Implies(z3.And(CARD(nodes(v0)) > 0, v0.nesting >= mx(v0)), sel(H(v1, "truncated"), v0.self) == v0.nesting))
+    c.ensures("next_hop_iff_nodes_left_and_below_the_depth_limit_else_truncated_here", post)
+    c.no_raise = True
+    return c
